@@ -169,7 +169,7 @@ class BIFReader(object):
         return probability_expr, cpd_expr
 
     def variable_block(self):
-        start = re.finditer(r"variable\s+[^\s{]+\s*\{", self.network)
+        start = re.finditer(r"(?<![\w-])variable\s+[\w.-]+\s*\{", self.network)
         for index in start:
             end = self.network.find("}\n", index.start())
             yield self.network[index.start() : end]
